@@ -26,6 +26,7 @@ size_t env_bytes_consumed(void);
 const uint8_t *env_out(void); size_t env_out_len(void);
 const env_write_t *env_writes(void); int env_nwrites(void);
 extern void (*env_on_write)(const uint8_t *buf, int32_t len);   /* simulated bus hook */
+extern int env_write_yields;                            /* the write callback yields to the scheduler before it reads the buffer (slow device) */
 /* virtual config files: directory name "vcfg:<anything>/" */
 void env_set_cfg(const char *board, const char *track, const char *train); /* NULL = missing file */
 #define ENV_CFG_DIR "vcfg:/"
